@@ -29,6 +29,9 @@ type HCase struct {
 	BogusLast bool `json:"bogusLast,omitempty"`
 	// Builder: the QueryHandler values are put together with the With... methods.
 	Builder bool `json:"builder,omitempty"`
+	// During[i], if not empty, is a resource (held or not): mutation i is made (and flushed) while a
+	// get request on that resource is scanning the index.
+	During []string `json:"during,omitempty"`
 }
 
 func (c HCase) String() string { b, _ := json.Marshal(c); return string(b) }
@@ -84,7 +87,51 @@ func runHandler(c HCase) (msg string, nontrivial bool) {
 		typ = res.Model
 	}
 	storeQuery := func(prefix string) url.Values {
-		return Query{Index: "ia", Prefix: prefix, Limit: -1}.values()
+		return Query{Index: "ia", Prefix: prefix, Filter: "hook", Limit: -1}.values()
+	}
+	// wantOf: what a get of a held resource must return, from the query store itself
+	wantOf := func(rid string) (string, bool) {
+		var prefix string
+		switch {
+		case rid == "svc.all" || rid == "svc.search":
+		case strings.HasPrefix(rid, "svc.by."):
+			prefix = strings.TrimPrefix(rid, "svc.by.")
+		case strings.HasPrefix(rid, "svc.search?prefix="):
+			prefix = strings.TrimPrefix(rid, "svc.search?prefix=")
+			if prefix != "" && !validTok(prefix) {
+				return "", false
+			}
+		default:
+			return "", false
+		}
+		ids, err := m.query(Query{Index: "ia", Prefix: prefix, Limit: -1})
+		if err != nil {
+			return "", false
+		}
+		var b strings.Builder
+		if c.Model {
+			b.WriteString("{")
+			for i, id := range ids {
+				if i > 0 {
+					b.WriteString(",")
+				}
+				k, _ := json.Marshal(id)
+				r, _ := json.Marshal(toRID(id))
+				fmt.Fprintf(&b, `%s:{"rid":%s}`, k, r)
+			}
+			b.WriteString("}")
+		} else {
+			b.WriteString("[")
+			for i, id := range ids {
+				if i > 0 {
+					b.WriteString(",")
+				}
+				r, _ := json.Marshal(toRID(id))
+				fmt.Fprintf(&b, `{"rid":%s}`, r)
+			}
+			b.WriteString("]")
+		}
+		return canon([]byte(b.String())), true
 	}
 	// optionally the handler values are put together with the With... methods
 	mk := func(qh store.QueryHandler) store.QueryHandler {
@@ -196,9 +243,36 @@ func runHandler(c HCase) (msg string, nontrivial bool) {
 		cl.cache[rid] = v
 	}
 	replySeq := 0
+	during := false
+	_ = during
 	for i, op := range c.Ops {
 		mark := conn.LogLen()
-		if err := m.mutate(op); err != nil {
+		var merr error
+		done := false
+		if i < len(c.During) && c.During[i] != "" {
+			m.mu.Lock()
+			m.scanHook = func() {
+				done = true
+				if merr = m.mutate(op); merr == nil {
+					m.qs.Flush()
+				}
+			}
+			m.mu.Unlock()
+			// the get raced the mutation: what it returns may be either state
+			if _, err := get(c.During[i]); err != nil {
+				return "VERIF-INCONCLUSIVE: " + err.Error(), nontrivial
+			}
+			m.mu.Lock()
+			m.scanHook = nil
+			m.mu.Unlock()
+			if done && merr == nil {
+				during = true
+			}
+		}
+		if !done {
+			merr = m.mutate(op)
+		}
+		if merr != nil {
 			continue
 		}
 		m.qs.Flush()
@@ -226,6 +300,16 @@ func runHandler(c HCase) (msg string, nontrivial bool) {
 				events[rest[:j]] = append(events[rest[:j]], e)
 			}
 		}
+		if d := duringOf(c, i); d != "" {
+			// the resource whose get raced the mutation, fetched again
+			fresh, err := get(d)
+			if err != nil {
+				return "VERIF-INCONCLUSIVE: " + err.Error(), nontrivial
+			}
+			if want, ok := wantOf(d); ok && fresh != want {
+				return fmt.Sprintf("mutation %d %+v was made (and flushed) during a get of %s; the next get of it returns %s, the query store holds %s", i, op, d, fresh, want), true
+			}
+		}
 		for _, rid := range c.Held {
 			name, q := rid, ""
 			if j := strings.IndexByte(rid, '?'); j >= 0 {
@@ -234,6 +318,9 @@ func runHandler(c HCase) (msg string, nontrivial bool) {
 			fresh, err := get(rid)
 			if err != nil {
 				return "VERIF-INCONCLUSIVE: " + err.Error(), nontrivial
+			}
+			if want, ok := wantOf(rid); ok && fresh != want {
+				return fmt.Sprintf("after mutation %d %+v (flushed; made during a get of %q) a get of %s returns %s, the query store holds %s", i, op, duringOf(c, i), rid, fresh, want), true
 			}
 			told := false
 			for _, r := range resets {
@@ -297,6 +384,13 @@ func runHandler(c HCase) (msg string, nontrivial bool) {
 	return "", nontrivial
 }
 
+func duringOf(c HCase, i int) string {
+	if i < len(c.During) {
+		return c.During[i]
+	}
+	return ""
+}
+
 func TestC14Handler(t *testing.T) {
 	ev := evid.For("C14")
 	ev.SetRule("handler-level cases: a service with store.QueryHandler resources over a real badgerstore QueryStore (ordinary resource, ordinary resource with a path parameter and an AffectedResources callback, query resource; served as collections or as models through the IDToRID transformers), a client holding 1-4 results, 1-25 mutations; after every mutation + Flush the client applies the resets / events / query-event responses it received and must equal a fresh get; non-trivial when some mutation changed or touched a held result")
@@ -304,11 +398,17 @@ func TestC14Handler(t *testing.T) {
 		c := HCase{Model: rapid.Bool().Draw(rt, "model"), BogusLast: rapid.IntRange(0, 3).Draw(rt, "bogus") == 0, Builder: rapid.Bool().Draw(rt, "builder")}
 		c.Cfg.Prefix = rapid.SampledFrom([]string{"", "pfx"}).Draw(rt, "prefix")
 		c.Cfg.SlowKey = rapid.SampledFrom([]int{0, 0, 1}).Draw(rt, "slow")
-		c.Held = rapid.SliceOfNDistinct(rapid.SampledFrom([]string{"svc.all", "svc.by.a", "svc.by.b", "svc.by.ab", "svc.search?prefix=a", "svc.search?prefix=", "svc.search?prefix=ab", "svc.search"}), 1, 4, rapid.ID[string]).Draw(rt, "held")
+		pool := []string{"svc.all", "svc.by.a", "svc.by.b", "svc.by.ab", "svc.search?prefix=a", "svc.search?prefix=", "svc.search?prefix=ab", "svc.search"}
+		c.Held = rapid.SliceOfNDistinct(rapid.SampledFrom(pool), 1, 4, rapid.ID[string]).Draw(rt, "held")
 		n := rapid.IntRange(1, 25).Draw(rt, "nops")
 		for i := 0; i < n; i++ {
 			k := rapid.SampledFrom([]string{"create", "create", "update", "update", "delete"}).Draw(rt, "k")
 			c.Ops = append(c.Ops, Op{K: k, ID: rapid.SampledFrom(idAlpha).Draw(rt, "id"), A: rapid.SampledFrom([]string{"a", "b", "ab", "aa", "ba", "~nil", "", "a:", "b~"}).Draw(rt, "a")})
+			d := ""
+			if rapid.IntRange(0, 3).Draw(rt, "during") == 0 {
+				d = rapid.SampledFrom(pool).Draw(rt, "duringRID")
+			}
+			c.During = append(c.During, d)
 		}
 		msg, nt := runHandler(c)
 		ev.Case(nt, evid.Hash("handler", c.String()), "handler")
